@@ -16,7 +16,7 @@ class Spec:
     quick_workers: int = 4
     thorough_workers: int = 16
     quick_time: float = 90.0  # soft per-worker generation budget (seconds)
-    thorough_time: float = 2700.0
+    thorough_time: float = 1000.0  # wall-clock cap per property (the case budget usually ends the run first; a cap hit means fewer cases, never a violation)
     exhaustive_only: bool = False
     assumptions: list[str] = field(default_factory=list)
 
